@@ -30,7 +30,8 @@ def hexNibble (n : UInt64) : Char :=
 def hex64 (u : UInt64) : String :=
   String.ofList ((List.range 16).map fun i => hexNibble ((u >>> (UInt64.ofNat (4 * (15 - i)))) &&& 15))
 
-def hexOfFloat (x : Float) : String := hex64 x.toBits
+/-- canonical zero: `-0.0` is printed as `+0.0` (as the harness does) -/
+def hexOfFloat (x : Float) : String := hex64 (if x == 0.0 then (0.0 : Float).toBits else x.toBits)
 
 def eps : Float := 2.220446049250313e-16
 
@@ -72,6 +73,6 @@ def valStr {K : Type} [DrvScalar K] (v : K) : String :=
   hexOfFloat (DrvScalar.re v) ++ " " ++ hexOfFloat (DrvScalar.im v)
 
 def bitsEq {K : Type} [DrvScalar K] (a b : K) : Bool :=
-  (DrvScalar.re a).toBits == (DrvScalar.re b).toBits && (DrvScalar.im a).toBits == (DrvScalar.im b).toBits
+  hexOfFloat (DrvScalar.re a) == hexOfFloat (DrvScalar.re b) && hexOfFloat (DrvScalar.im a) == hexOfFloat (DrvScalar.im b)
 
 end Driver
